@@ -121,6 +121,8 @@ class Dataset(AbstractDataset, dict, OpMixin, GetSetDelAttrMixin):
             raise TypeError("new dims must be iterable")
         if not len(newdims) == len(self.axes):
             raise ValueError("dimension mistmatch")
+        if len(set(newdims)) != len(newdims):
+            raise ValueError("duplicate dimension names: {}".format(newdims))
 
         # update every element's dimension
         for i, newname in enumerate(newdims):
